@@ -480,6 +480,22 @@ func (s *Set) Value(_ context.Context, t *dials.Type) (reflect.Value, error) {
 			return
 		}
 
+		base := ffield.Type()
+		for base.Kind() == reflect.Ptr {
+			base = base.Elem()
+		}
+		if base != stripTypePtr(ffield.Type()) {
+			// user-declared pointer(s) below the pointerification
+			out := reflect.New(base).Elem()
+			out.Set(fval.Elem().Convert(base))
+			for out.Type() != ffield.Type() {
+				p := reflect.New(out.Type())
+				p.Elem().Set(out)
+				out = p
+			}
+			ffield.Set(out)
+			return
+		}
 		// fval is always a pointer, so dereference it before converting to the final type
 		cfval := fval.Elem().Convert(stripTypePtr(ffield.Type()))
 		switch ffield.Kind() {
